@@ -538,7 +538,9 @@ class Monitor:
     def snap(self):
         a = self.r.a
         return dict(p=a.p_Ist, v=a.v_Ist, active=a.axis_state == 3, stowed=bool(a.stowed), pt=a.ptState,
-                    pta=bool(a.program_track_active), live=set(self.r.live()))
+                    pta=bool(a.program_track_active), live=set(self.r.live()),
+                    ex=(a.executed_mode_command_counter, a.executed_mode_command,
+                        a.executed_mode_command_answer))
 
     def before(self, op):
         self.pre = self.snap()
@@ -561,6 +563,9 @@ class Monitor:
         if post['p'] != pre['p']:
             self.bad('moved_without_iteration', 'position changed by an operation that is not a loop iteration',
                      op=op)
+        if kind != 'cmd' and post['ex'] != pre['ex']:
+            self.bad('executed_triple_wrong', 'executed-command triple changed by an operation that is neither a '
+                     'command nor a loop iteration', op=op, before=list(pre['ex']), after=list(post['ex']))
         if kind == 'update':
             p, v = post['p'], post['v']
             got = [int(a.Pre_Limit_Dn), int(a.Fin_Limit_Dn), int(a.Pre_Limit_Up), int(a.Fin_Limit_Up),
@@ -583,6 +588,9 @@ class Monitor:
         r, a = self.r, self.r.a
         _, cnt, name, p1, p2 = op
         mid = len(r.handles) - 1
+        if post['ex'][:2] != (cnt, Rig.MODES[name]) or post['ex'][2] not in (1, 2):
+            self.bad('executed_triple_wrong', 'after an accepted command the executed triple does not name it',
+                     op=op, executed=list(post['ex']))
         has_stow = bool(r.stows)
         superseding = name in ('stop', 'abs', 'rel', 'slew', 'track') or \
             (has_stow and name in ('stow', 'unstow', 'drive'))
@@ -640,6 +648,20 @@ class Monitor:
             self.bad('moved_while_gated', 'position changed while the axis was inactive or stowed',
                      dp=dp, active=pre['active'], stowed=pre['stowed'])
         done = mid not in post['live']
+        if post['ex'] != pre['ex'] and not first:
+            own = m['kind'] in self.MOVE and not m.get('superseded') and done and \
+                post['ex'] == (m['cnt'], m['mode'], 1)
+            if not own:
+                if m.get('superseded') or m['kind'] == 'track':
+                    klass = self.sup_class() if m.get('superseded') else 'executed_triple_overwritten'
+                    if klass == 'supersession':
+                        klass = 'executed_triple_overwritten'
+                    self.bad(klass, 'a command thread that had been superseded by a newer command (or the '
+                             'tracking thread) overwrote the executed-command triple when it woke up',
+                             id=mid, thread_counter=m['cnt'], before=list(pre['ex']), after=list(post['ex']))
+                else:
+                    self.bad('executed_triple_wrong', 'executed-command triple written with a wrong value',
+                             id=mid, before=list(pre['ex']), after=list(post['ex']))
         kfr = Fraction(k, 1024)
         if m['kind'] == 'track':
             if m.get('superseded'):
